@@ -22,7 +22,8 @@ VARIABLES m, ok
 mvars == <<S, hist, nlog, done, I, m, ok>>
 
 (* m = [ord, lines, orphans, zl, d]: ord = <<[b, z]>>, lines[b] = member draw state (sequence of bar lines, <<>> before the first draw) *)
-MM0 == [ord |-> <<>>, lines |-> <<>>, orphans |-> <<>>, zl |-> 0, d |-> [t |-> TInit(W, H), llc |-> 0, atEnd |-> FALSE], lim |-> NoLim]
+MM0 == [ord |-> <<>>, lines |-> <<>>, orphans |-> <<>>, zl |-> 0, d |-> [t |-> TInit(W, H), llc |-> 0, atEnd |-> FALSE], lim |-> NoLim,
+        now |-> 0]        \* design level: the time of the last operation in microseconds (the trace monitors take the time from the records)
 
 RowsL(ls) == SumCodeRows(ToBar(ls), 1, W)
 MemberLines(mm, b) == IF b \in DOMAIN mm.lines THEN mm.lines[b] ELSE <<>>
@@ -115,21 +116,23 @@ Painted(o, S0) == (o.op \in {"set_target", "readd", "mp_remove"} => S0.bars[o.b]
                   /\ (o.b # 0 => (o.b \in S0.ids => S0.bars[o.b].vis))
 
 ASSUME Base = 0      \* the modelled terminal starts empty
+ASSUME Hz = 0 \/ LimExact(Hz)
 
 MInit == /\ Init
-         /\ m = [MM0 EXCEPT !.ord = [j \in 1..Pre |-> [b |-> j, z |-> FALSE]]]
+         /\ m = [MM0 EXCEPT !.ord = [j \in 1..Pre |-> [b |-> j, z |-> FALSE]], !.lim = IF Hz > 0 THEN LimNew(Hz, 0) ELSE NoLim]
          /\ ok = TRUE
 
 (* one operation: the library model acts, then the contract judges the modelled terminal like Trace_Screen does *)
 MNext ==
     /\ Len(hist) < D /\ ~done /\ ok
     /\ \E o \in {x \in OpsNow : x.op \in {"println", "suspend", "mp_println", "mp_suspend"} => nlog < MaxLog} :
-         LET fo == Full(o)
+         LET fo == [t |-> m.now + o.dt] @@ Full(o)
              res == Apply(S, fo)
              S1 == res.S
          IN \E m1 \in {MStep(m, fo, S, S1)} :
-              /\ m' = m1
-              /\ IF Painted(fo, S)
+              /\ m' = [m1 EXCEPT !.now = fo.t]
+              (* with a limiter an ordinary request may be refused: then nothing was painted and nothing is judged (a forced one must paint) *)
+              /\ IF Painted(fo, S) /\ (~m.lim.on \/ res.forced \/ m1.d # m.d)
                  THEN \E ms \in {Matches(S1, m1.d.t, res.log, res.blank)} :
                         /\ ok' = (ms # {})
                         /\ IF ms = {} THEN S' = S1
